@@ -160,6 +160,50 @@ def shard(binpath, seed, sh, n):
     return res
 
 
+def delegated(binpath, seed, sh, n):
+    """a threshold-2 step whose two functionaries each file a sub-layout with the very same content (each under its own
+    signature); the evidence in their two dedicated directories agrees or differs.  What a functionary contributes is the
+    summary of *his* directory: differing summaries are dissent"""
+    rng = common.rng_for(seed, PROP, 3000 + sh)
+    W = scen.World(binpath)
+    res = common.Result()
+    reqs, plans = [], []
+    for i in range(n):
+        f1, f2, ki = rng.sample(["ed4", "ed5", "ed6", "edp2", "ec-b"], 3)
+        kind = rng.choice(["none", "digest", "extra", "missing"])
+        inner = scen.mk_layout(W, [ki], [scen.mk_step("inner", 1, [W.kid(ki)], [], [["ALLOW", "*"]], [["ALLOW", "*"]])], [])
+        top = scen.mk_layout(W, [f1, f2], [scen.mk_step("build", 2, [W.kid(f1), W.kid(f2)], [], [["ALLOW", "*"]], [["ALLOW", "*"]])], [])
+        l1 = pipeline.leaf_link("inner", 0)
+        l2 = copy.deepcopy(l1)
+        if kind == "digest":
+            l2["products"][sorted(l2["products"])[0]] = scen.digest(0xEE)
+        elif kind == "extra":
+            l2["products"]["extra/file"] = scen.digest(0x77)
+        elif kind == "missing":
+            del l2["materials"][sorted(l2["materials"])[0]]
+        if rng.random() < 0.5:
+            l1, l2 = l2, l1
+        plans.append((f1, f2, ki, kind, len(reqs)))
+        reqs += [(top, ["ed0"], "new"), (inner, [f1], "new"), (inner, [f2], "new"), (l1, [ki], "new"), (l2, [ki], "new")]
+    wires = scen.sign_all(binpath, reqs, nproc=1)
+    cases = []
+    for f1, f2, ki, kind, b in plans:
+        files = {f"build.{W.pfx(f1)}.link": scen.dumps(wires[b + 1]), f"build.{W.pfx(f2)}.link": scen.dumps(wires[b + 2]),
+                 f"build.{W.pfx(f1)}/inner.{W.pfx(ki)}.link": scen.dumps(wires[b + 3]),
+                 f"build.{W.pfx(f2)}/inner.{W.pfx(ki)}.link": scen.dumps(wires[b + 4])}
+        cases.append(scen.verify_case(wires[b], [[W.kid("ed0"), W.pub("ed0")]], files, reps=4,
+                                      meta={"threshold": 2, "k": 2, "dissent": "delegated:" + kind, "where": "summary", "rank": "-",
+                                            "dissent_in_artifacts": kind != "none"}))
+    obs = common.run_batch(binpath, cases)
+    for c, o in zip(cases, obs):
+        oks = judge(c, o, res)
+        if oks is None:
+            continue
+        m = c["meta"]
+        res.note([c["layout"], sorted(c["files"].items())], True, cls=[f"dissent:{m['dissent']}", "accepted" if oks else "rejected"], n=len(o["runs"]))
+    return res
+
+
 def main(ctx):
     res = common.Result()
     n = 40 if not ctx.thorough else 1500
@@ -167,6 +211,8 @@ def main(ctx):
         m = res.extras.get("distinct_iteration_orders_seen_max", 0)
         res.merge(p)
         res.extras["distinct_iteration_orders_seen_max"] = max(m, p.extras.get("distinct_iteration_orders_seen_max", 0))
+    for p in common.pmap(delegated, [(ctx.bin, ctx.seed, s, 12 if not ctx.thorough else 200) for s in range(4)]):
+        res.merge(p)
     return common.finish(
         PROP, ctx.tier, ctx.seed, res, t0=ctx.t0,
         rule="steps with threshold 2-4 and threshold..threshold+2 valid authorised links; one link dissents in one of "
@@ -177,5 +223,5 @@ def main(ctx):
         required=["positive_control_accepted", "dissent:path", "dissent:digest", "dissent:alg", "dissent:extra",
                   "dissent:missing", "where:materials", "where:products", "rank:smallest", "rank:largest", "rank:middle",
                   "surplus_links", "threshold:2", "threshold:3", "threshold:4", "dissent:byproducts_only", "dissent:digest_truncated", "dissent:path_respelled",
-                  "dissent:extra_without_digests", "dissent:digests_emptied", "dissenter_cosigned_another_link:dissent", "dissenter_cosigned_another_link:no_artifact_dissent"],
+                  "dissent:delegated:none", "dissent:delegated:digest", "dissent:delegated:extra", "dissent:extra_without_digests", "dissent:digests_emptied", "dissenter_cosigned_another_link:dissent", "dissenter_cosigned_another_link:no_artifact_dissent"],
         min_evals=1000)
